@@ -249,9 +249,13 @@ func viaNonFirst(g *up.Graph, x, y string) string {
 // ---------------------------------------------------------------- (b) termination
 
 // cycleSignature names the shape of a non-terminating application from the invocation
-// trace of one event: the cycle of (declared edge, returned type), rotated and renamed
-// canonically so that the same cause gives the same signature for every choice of names.
-func cycleSignature(stored string, trace []call) string {
+// trace of one event. The types an event passes through are eventually periodic; the
+// signature states the number of upcasters on the cycle, whether they all return their
+// declared target (then the registered graph itself is cyclic) and whether a declared
+// target of a lying upcaster is among the types visited (apply's guard looks at
+// declared targets). It does not depend on the names chosen. The second result is
+// the cycle with names canonicalised (for the detail text).
+func cycleSignature(stored string, trace []call) (sig, shape string) {
 	types := []string{stored}
 	for _, c := range trace {
 		types = append(types, c.Returned)
@@ -266,7 +270,7 @@ func cycleSignature(stored string, trace []call) string {
 		first[t] = i
 	}
 	if q < 0 || p > len(trace) {
-		return fmt.Sprintf("upcast apply does not terminate: more than %d upcaster calls for one event without a repeating type", callLimit)
+		return fmt.Sprintf("upcast apply does not terminate: more than %d upcaster calls for one event without a repeating type", callLimit), ""
 	}
 	cyc := trace[q:p]
 	best := ""
@@ -295,10 +299,28 @@ func cycleSignature(stored string, trace []call) string {
 			best = s
 		}
 	}
-	if len(cyc) == 1 {
-		return "upcast apply does not terminate: upcaster registered " + strings.Replace(best, "returns", "returns type", 1) + " (its own source)"
+	visited := map[string]bool{}
+	for _, t := range types[:p] {
+		visited[t] = true
 	}
-	return fmt.Sprintf("upcast apply does not terminate: returned types form a cycle through %d upcasters: %s", len(cyc), best)
+	honest, declaredVisited := true, false
+	for _, c := range cyc {
+		if c.Returned != c.To {
+			honest = false
+			if visited[c.To] {
+				declaredVisited = true
+			}
+		}
+	}
+	switch {
+	case honest:
+		return fmt.Sprintf("upcast apply does not terminate: the registered graph has a cycle of %d upcasters that all return their declared target", len(cyc)), best
+	case len(cyc) == 1 && cyc[0].Returned == cyc[0].From:
+		return "upcast apply does not terminate: upcaster registered a->b returns type a (its own source)", best
+	case declaredVisited:
+		return fmt.Sprintf("upcast apply does not terminate: returned types form a cycle through %d upcasters although a lying upcaster's declared target is among the types already visited", len(cyc)), best
+	}
+	return fmt.Sprintf("upcast apply does not terminate: returned types form a cycle through %d upcasters with every lying upcaster's declared target outside the types visited", len(cyc)), best
 }
 
 // replayAll runs ReplayWithUpcast over the whole store, restarting after an event
@@ -426,9 +448,10 @@ func termCheck(w *world, g *up.Graph, hist []up.Op, evs []*eventbus.StoredEvent)
 			tr = append(tr, fmt.Sprintf("%s->%s returned %q", c.From, c.To, c.Returned))
 		}
 		hh := withReturns()
-		out = append(out, found{viol{"nontermination", cycleSignature(r.Type, r.Trace),
-			fmt.Sprintf("history: %s\nregistered graph (model): %s\nstored event of type %q: more than %d upcaster invocations, ReplayWithUpcast stopped by the harness's sentinel panic\ninvocations: %s",
-				up.OpsString(hh), g, r.Type, callLimit, strings.Join(tr, "; "))}, termCase{"termination", hh}})
+		sig, shape := cycleSignature(r.Type, r.Trace)
+		out = append(out, found{viol{"nontermination", sig,
+			fmt.Sprintf("history: %s\nregistered graph (model): %s\nstored event of type %q: more than %d upcaster invocations, ReplayWithUpcast stopped by the harness's sentinel panic\ninvocations: %s\ncycle (names canonicalised): %s",
+				up.OpsString(hh), g, r.Type, callLimit, strings.Join(tr, "; "), shape)}, termCase{"termination", hh}})
 	}
 	return out
 }
